@@ -1,5 +1,6 @@
 import GtirbVerif.Lemmas.Intervals
 import GtirbVerif.Lemmas.FirstAlign
+import GtirbVerif.Lemmas.JoinPad
 
 /-!
 # C10 — no-op rewrites are the identity; split/join round-trips; alignment
@@ -20,6 +21,14 @@ import GtirbVerif.Lemmas.FirstAlign
   nops or zeros") puts in front of a piece is shorter than the strictest alignment requested at
   the piece's first aligned offset and satisfies *every* request made there (a block's own
   `.align` and a patch's at offset 0), alignments being powers of two.
+  About the model of `join_byte_intervals` itself, with alignment demands, uninitialized tails and any
+  nop encoding (Lemmas/JoinPad.lean): appending an interval adds exactly the fill of the
+  uninitialized tail and the alignment padding in front of the appended bytes - whole nops behind
+  code, zeros behind data, shorter than the boundary -, moves the appended blocks and table entries
+  by one displacement and puts the block whose alignment is asked for on its boundary; over the
+  whole loop the bytes already placed stay where they are, every placed block stays placed, and
+  every appended interval sits in the result unchanged at a displacement at which its aligned block
+  is aligned.
 -/
 namespace GtirbVerif.Props.C10
 open GtirbVerif.Intervals
@@ -105,7 +114,58 @@ theorem listing_padding_satisfies_every_request_at_the_first_aligned_offset
   rw [hpos]
   exact Nat.mod_eq_zero_of_dvd (Nat.dvd_trans hdvd (Nat.dvd_of_mod_eq_zero hmod))
 
+/-- **what one appended interval adds**: `fill` (the uninitialized tail of the destination made
+explicit) and `pad` (the alignment padding) are the only new bytes in front of the appended ones; each
+is whole nops behind code and zeros behind data; the padding is shorter than the boundary and puts the
+block whose alignment is asked for on it -/
+theorem join_adds_only_padding {nop : List Nat} {alignB : Nat → Option Nat} {st st' : JoinState} {iv : Iv} {alignI : Option Nat}
+    (h : joinOne nop alignB st iv alignI = .ok st') (hle : st.dest.contents.length ≤ st.dest.size) (hinv : AddrInv st) :
+    ∃ fill pad, PadOk st.last nop fill ∧
+      (∃ l1, PadOk l1 nop pad ∧ (l1.map (·.isCode)).getD false = (st.last.map (·.isCode)).getD false) ∧
+      st'.dest.contents = st.dest.contents ++ fill ++ pad ++ iv.contents ∧
+      fill.length = st.dest.size - st.dest.contents.length ∧
+      pad.length < max 1 (wantedAlignment alignB alignI iv).2 ∧
+      (1 < (wantedAlignment alignB alignI iv).2 →
+        (st.dest.addr.getD 0 + (st.dest.size + pad.length) + (wantedAlignment alignB alignI iv).1) %
+          (wantedAlignment alignB alignI iv).2 = 0) := by
+  obtain ⟨fill, pad, h1, h2, h3, h4, _, _, _, _, _, h10, h11, _, _⟩ := joinOne_spec h hle hinv
+  exact ⟨fill, pad, h2, h3, h4, h1, h11, h10⟩
+
+/-- **the whole of `join_byte_intervals`** (two or more intervals, any alignment demands, uninitialized
+tails, any nop): the first interval's bytes are a prefix of the result and its blocks stay; every other
+interval's bytes sit in the result as they were, its blocks moved by one displacement `base`, and the
+block whose alignment is asked for lies at a multiple of its boundary -/
+theorem join_places_every_interval_aligned (nop : List Nat) (alignB : Nat → Option Nat) (d : Iv) (ad : Option Nat)
+    (p : Iv × Option Nat) (rest : List (Iv × Option Nat)) (nextId : Nat) (r : Iv)
+    (h : join nop alignB ((d, ad) :: p :: rest) nextId = .ok r)
+    (hd : d.contents.length ≤ d.size) (hall : ∀ q ∈ p :: rest, q.1.contents.length ≤ q.1.size) :
+    r.addr = d.addr ∧ (∃ t, r.contents = d.contents ++ t) ∧ (∀ b ∈ d.blocks, b ∈ r.blocks) ∧
+    r.contents.length ≤ r.size ∧
+    ∀ q ∈ p :: rest, ∃ base, (∀ b ∈ q.1.blocks, ({ b with off := b.off + base } : Blk) ∈ r.blocks) ∧
+      (∃ u v, r.contents = u ++ q.1.contents ++ v ∧ u.length = base) ∧
+      (1 < (wantedAlignment alignB q.2 q.1).2 →
+        (d.addr.getD 0 + base + (wantedAlignment alignB q.2 q.1).1) % (wantedAlignment alignB q.2 q.1).2 = 0) := by
+  unfold join at h
+  simp only [] at h
+  split at h
+  · cases h
+  · rename_i st hst
+    simp only [Except.ok.injEq] at h
+    subst h
+    obtain ⟨_, i2, i3, i4, i5, i6⟩ := joinFold_spec nop alignB (p :: rest)
+      { dest := d, address := d.addr.getD 0 + d.size, last := lastBlock d.blocks, nextId := nextId } st hst hd rfl hall
+    exact ⟨i3, i4, i5, i2, i6⟩
+
 /-! ### non-vacuity -/
+private def dA : Iv := { addr := some 4096, size := 3, contents := [1, 2], blocks := [⟨1, 0, 2, false⟩], anns := [] }
+private def dB : Iv := { addr := none, size := 2, contents := [7, 8], blocks := [⟨2, 0, 2, false⟩], anns := [⟨0, 1, 5⟩] }
+/-- an uninitialized byte behind data and an 8-aligned data block behind it: one zero of fill, five of padding
+(the same with a code block and the nop 0x90 gives six nops; `repeatTo` is a well-founded recursion that `decide`
+does not unfold, the driver evaluates it) -/
+example : (match join [144] (fun b => if b = 2 then some 8 else none) [(dA, none), (dB, none)] 100 with
+    | .ok r => (r.contents, r.size, r.blocks.map (fun (b : Blk) => (b.id, b.off, b.size)))
+    | .error _ => ([], 0, [])) =
+    ([1, 2, 0, 0, 0, 0, 0, 0, 7, 8], 10, [(1, 0, 2), (100, 2, 1), (101, 3, 5), (2, 8, 2)]) := by decide
 example : Listing.firstAlign [(0, 4), (3, 8), (0, 16)] = some (0, 16) := by decide
 private def demo : Iv :=
   { addr := some 4096, size := 6, contents := [1, 2, 3, 4, 5, 6],
